@@ -24,7 +24,7 @@ pub fn prop() -> Prop {
         title: "Routing follows the most specific live claim",
         level: "model_checking",
         rule: "explicit-state BFS by history replay over a real ClaimTable per address family (IPv4, IPv6, MAC+VLAN): alphabet Announce(peer, one of 6 claim subsets incl. \
-               empty), Disconnect(peer), Lookup(4 addresses hitting every nesting level and none), Advance(0/1/switch timeout/peer timeout)+sweep, AdvanceNoSweep(1); \
+               empty), Disconnect(peer), Learn(2 addresses x peer), Lookup(4 addresses hitting every nesting level and none), Advance(0/1/switch timeout/peer timeout)+sweep, AdvanceNoSweep(1); \
                every lookup result must be in the allowed set of a history-based reference (most specific live claim, one sweep of slack; or a still-valid earlier \
                decision); canonical state = table dump with relative expiries + reference history ages. Prefix matching: all 256 bases x prefixes 0..=20 x all 256 \
                addresses (8-bit universe), 16-bit universe (boundary addresses quick / all thorough), one-bit-difference addresses for 4/6/8/16-byte ranges x \
